@@ -140,46 +140,54 @@ class DefaultFormulaParser(FormulaParser):
             tokens, "0", [token_minus, token_one], kind=Token.Kind.VALUE
         )
 
+        # Split operator tokens after "~" (inserting intercepts if required)
+        tokens = list(
+            insert_tokens_after(
+                tokens,
+                "~",
+                [token_one] if self.include_intercept else [],
+                kind=Token.Kind.OPERATOR,
+                join_operator="+" if self.include_intercept else None,
+                no_join_for_operators={"+", "-"},
+            )
+        )
+
+        def find_rhs_index(tokens: list[Token]) -> int:
+            """
+            Find the top-level index of the tilde operator starting the
+            right hand side of the formula (or -1 if not found).
+            """
+            from .algos.tokens_to_ast import CONTEXT_CLOSERS, CONTEXT_OPENERS
+
+            context = []
+            for index, token in enumerate(tokens):
+                if token.kind is Token.Kind.CONTEXT:
+                    if token.token in CONTEXT_OPENERS:
+                        context.append(token.token)
+                        continue
+                    else:
+                        if (
+                            not context
+                            or context[-1] != CONTEXT_CLOSERS[token.token]
+                        ):
+                            return -1  # pragma: no cover ; should not happen
+                        context.pop()
+                if context:
+                    continue
+                if token.token == "~":  # noqa: S105
+                    return index
+            return -1
+
+        rhs_index = find_rhs_index(tokens) + 1
+
+        context["__formulaic_variables_used_lhs__"] = [
+            variable
+            for token in tokens[:rhs_index]
+            for variable in token.required_variables
+        ]
+
         # Insert intercepts
         if self.include_intercept:
-            tokens = list(
-                insert_tokens_after(
-                    tokens,
-                    "~",
-                    [token_one],
-                    kind=Token.Kind.OPERATOR,
-                    join_operator="+",
-                    no_join_for_operators={"+", "-"},
-                )
-            )
-
-            def find_rhs_index(tokens: list[Token]) -> int:
-                """
-                Find the top-level index of the tilde operator starting the
-                right hand side of the formula (or -1 if not found).
-                """
-                from .algos.tokens_to_ast import CONTEXT_CLOSERS, CONTEXT_OPENERS
-
-                context = []
-                for index, token in enumerate(tokens):
-                    if token.kind is Token.Kind.CONTEXT:
-                        if token.token in CONTEXT_OPENERS:
-                            context.append(token.token)
-                            continue
-                        else:
-                            if (
-                                not context
-                                or context[-1] != CONTEXT_CLOSERS[token.token]
-                            ):
-                                return -1  # pragma: no cover ; should not happen
-                            context.pop()
-                    if context:
-                        continue
-                    if token.token == "~":  # noqa: S105
-                        return index
-                return -1
-
-            rhs_index = find_rhs_index(tokens) + 1
             tokens = [
                 *(
                     tokens[:rhs_index]
@@ -194,12 +202,6 @@ class DefaultFormulaParser(FormulaParser):
                     join_operator="+",
                     no_join_for_operators={"+", "-"},
                 ),
-            ]
-
-            context["__formulaic_variables_used_lhs__"] = [
-                variable
-                for token in tokens[:rhs_index]
-                for variable in token.required_variables
             ]
 
         # Collapse inserted "+" and "-" operators to prevent unary issues.
